@@ -76,17 +76,56 @@ func main() {
 		// defect in a lower layer that breaks this property is reported by this property's check as well
 		expl, asm := rep.Explanation, rep.Assumptions
 		var ran []string
-		if os.Getenv("VERIF_NO_DEPS") == "" {
+		if os.Getenv("VERIF_NO_DEPS") == "" && len(rules.DepsClosure(id)) > 0 {
+			// a lower-layer obligation belongs in this report iff it is about a function this property's code can
+			// reach (or about no single function: constants, tables, type-level rules)
+			// (in every build configuration the property's own rules loaded: the portable and the assembly builds
+			// reach different routines)
+			ctx.Prog(load.AMD64)
+			var relvs []*rules.Relevance
+			for _, pr := range ctx.Progs() {
+				relv := rules.NewRelevance(pr)
+				for _, o := range rep.Obligations {
+					relv.AddRoot(relv.Subject(o.Pos))
+				}
+				relvs = append(relvs, relv)
+			}
+			relevant := func(o check.Obligation) bool {
+				for _, r := range relvs {
+					if r.Relevant(o) {
+						return true
+					}
+				}
+				return false
+			}
+			own := len(rep.Obligations)
+			floors := map[string]int{}
+			for k, v := range rep.Floors {
+				floors[k] = v
+			}
 			for _, dep := range rules.DepsClosure(id) {
 				if g, ok := rules.Registry[dep]; ok {
 					g(ctx)
 					ran = append(ran, dep)
 				}
 			}
+			kept := rep.Obligations[:own:own]
+			dropped := 0
+			for _, o := range rep.Obligations[own:] {
+				if relevant(o) {
+					kept = append(kept, o)
+				} else {
+					dropped++
+				}
+			}
+			rep.Obligations = kept
+			rep.Floors = floors // the floors of a lower layer are asserted by that layer's own check
+			rep.Extra["lower_layer_obligations_not_reachable_from_this_property"] = dropped
+			rep.Extra["functions_reachable_from_this_property"] = len(relvs[0].ReachedNames())
 		}
 		rep.Explanation, rep.Assumptions = expl, asm
 		if len(ran) > 0 {
-			rep.Explanation += "  The rules of the lower layers this property rests on (" + strings.Join(ran, ", ") + ") are evaluated in the same run; their obligations appear under their own rule identifiers."
+			rep.Explanation += "  The rules of the lower layers this property rests on (" + strings.Join(ran, ", ") + ") are evaluated in the same run; those of their obligations that concern a function reachable from this property's code (resolved call graph) appear under their own rule identifiers."
 			rep.Extra["lower_layer_checks_included"] = ran
 		}
 		return -1
